@@ -17,7 +17,7 @@ SPEC = {
     "must_reach": ["PyMatterSim.static.sq:sq.unary", "PyMatterSim.static.sq:sq.binary", "PyMatterSim.static.sq:sq.ternary",
                    "PyMatterSim.static.sq:sq.quarternary", "PyMatterSim.static.sq:sq.quinary",
                    "PyMatterSim.utils.wavevector:choosewavevector"],
-    "floors": {"columns": 1000, "layout": 200, "sum_rule": 100, "nonnegative": 100, "default_qset": 60, "qvector_csv": 20},
+    "floors": {"columns": 1000, "layout": 200, "sum_rule": 100, "nonnegative": 100, "default_qset": 60, "qvector_csv": 20, "relabelled_in_place": 20, "single_precision_coordinates": 20, "default_qset_large_ranges": 1},
     "insitu": (),
     "rule": ("configurations as C03 (orthogonal boxes with deliberately unequal edges) x K=1..6 x qrange x explicit integer "
              "lists (negative components, repeated |q|) x onlypositive in {False,True,'x','y','z'} x 1..4 frames x N 2..60; "
@@ -104,6 +104,14 @@ def one_case(ctx, rng, wd, K=None, mode=None, force_N=None):
         snaps = Snapshots(nsnapshots=len(new), snapshots=new)
         L = Lnew.copy()
         ctx.count("almost_cubic_cells")
+    if (inf["N"] + 2 * frames + K) % 7 == 0 and not force_N:
+        # coordinates in SINGLE precision (what the HOOMD / GSD reader hands over: gsd stores float32).  The density modes are sums of
+        # exp(-i q.r) with q in double precision: the definition applies to the float32 values as they are (promoted exactly to double)
+        SingleSnapshot, Snapshots = gc.records()
+        snaps = Snapshots(nsnapshots=snaps.nsnapshots, snapshots=[
+            SingleSnapshot(timestep=s_.timestep, nparticle=s_.nparticle, particle_type=s_.particle_type, positions=np.asarray(s_.positions).astype(np.float32),
+                           boxlength=s_.boxlength, boxbounds=s_.boxbounds, realbounds=None, hmatrix=s_.hmatrix) for s_ in snaps.snapshots])
+        ctx.count("single_precision_coordinates")
     types = snaps.snapshots[0].particle_type
     Kreal = len(np.unique(types))
     N = inf["N"]
@@ -185,7 +193,7 @@ def one_case(ctx, rng, wd, K=None, mode=None, force_N=None):
     if mode == "explicit":
         ctx.check("qvector_untouched", np.array_equal(np.asarray(kwargs["qvector"]), np.array(nvec)), key + "/qvector_modified",
                   "the caller's wave-vector array was modified", info)
-    ref, qn = reference([s.positions for s in snaps.snapshots], [s.particle_type for s in snaps.snapshots], L, nvec)
+    ref, qn = reference([np.asarray(s.positions, dtype=np.float64) for s in snaps.snapshots], [s.particle_type for s in snaps.snapshots], L, nvec)
     # --- direct check of the wave-vector set / per-vector values through the _qvectors.csv
     if save:
         import pandas as pd
@@ -255,8 +263,70 @@ def one_case(ctx, rng, wd, K=None, mode=None, force_N=None):
         good = list(back.columns) == list(res.columns) and len(back) == len(res) and \
             bool(np.all(np.abs(back.values - res.values) <= 0.5e-6 + 1e-9 * np.abs(res.values)))
         ctx.check("csv", good, key + "/csv", "CSV differs from returned frame beyond %.6f", info)
+    # --- history: the species labels of the SAME snapshot objects are permuted in place (sub-populations relabelled to get other partials)
+    #     and a fresh analysis is made: every column follows the labels the snapshots hold now
+    if 2 <= Kreal <= 5 and rng.random() < 0.3 and all(s_.particle_type.flags.writeable for s_ in snaps.snapshots) and \
+            len({tuple(np.unique(s_.particle_type)) for s_ in snaps.snapshots}) == 1:
+        perm = rng.permutation(Kreal) + 1
+        if not np.array_equal(perm, np.arange(1, Kreal + 1)):
+            for s_ in snaps.snapshots:
+                s_.particle_type[...] = perm[np.asarray(s_.particle_type).astype(np.int64) - 1]
+            ok_r, res_r = ctx.call(key + "/relabelled_in_place", lambda: sq(snaps, **kwargs).getresults(), data=info)
+            if ok_r and res_r is not None:
+                ref2, _qn2 = reference([np.asarray(s.positions, dtype=np.float64) for s in snaps.snapshots], [s.particle_type for s in snaps.snapshots], L, nvec)
+                good = list(res_r.columns) == ["q"] + list(ref2.keys()) and len(res_r) == len(groups)
+                worst = 0.0
+                if good:
+                    for c in ref2:
+                        exp = np.array([ref2[c][g].mean() for g in groups])
+                        worst = max(worst, float(np.abs(res_r[c].values - exp).max() / max(1.0, np.abs(exp).max())))
+                ctx.check("relabelled_in_place", good and worst <= 0.5e-6 + 1e-9, key + "/relabelled_in_place",
+                          lambda: f"after the species labels of the snapshots were permuted in place ({perm.tolist()}) a fresh analysis differs from the "
+                                  f"definition by {worst:.3g} (columns {list(res_r.columns)})", info)
     for f in os.listdir(wd):
         os.remove(os.path.join(wd, f))
+
+
+def expected_default_set_large(d, numofq):
+    """the documented default set for large ranges, vectorised (exact integer arithmetic): all non-zero integer vectors with components in
+    [-floor(numofq/2), floor(numofq/2)) whose squared norm is a perfect square"""
+    nhalf = int(numofq / 2)
+    ax = np.arange(-nhalf, nhalf, dtype=np.int64)
+    out = []
+    if d == 2:
+        s2 = ax[:, None] ** 2 + ax[None, :] ** 2
+        r = np.floor(np.sqrt(s2.astype(np.float64))).astype(np.int64)
+        sq_ = ((r * r == s2) | ((r + 1) * (r + 1) == s2)) & (s2 > 0)
+        i, j = np.nonzero(sq_)
+        out = list(zip(ax[i].tolist(), ax[j].tolist()))
+    else:
+        s2 = ax[:, None] ** 2 + ax[None, :] ** 2
+        for a in ax.tolist():
+            t = s2 + a * a
+            r = np.floor(np.sqrt(t.astype(np.float64))).astype(np.int64)
+            sq_ = ((r * r == t) | ((r + 1) * (r + 1) == t)) & (t > 0)
+            j, k = np.nonzero(sq_)
+            out += [(a, b, c) for b, c in zip(ax[j].tolist(), ax[k].tolist())]
+    return out
+
+
+def qset_probe_large(ctx, rng):
+    """ranges far beyond the usual (large boxes: L ~ 100-250 at q_max ~ 10): integer vectors of norm 200-350, where sqrt(n.n) of a
+    non-square n.n comes within 1e-5 relative of an integer"""
+    from PyMatterSim.utils.wavevector import choosewavevector
+    todo = [(2, int(rng.choice([340, 452, 513, 700])))]
+    if ctx.thorough and ctx.shard % 4 == 0:
+        todo.append((3, int(rng.choice([276, 290]))))
+    for d, numofq in todo:
+        ok, got = ctx.call("choosewavevector/large", choosewavevector, d, numofq, False, data={"ndim": d, "numofq": numofq})
+        if not ok:
+            continue
+        exp = sorted(expected_default_set_large(d, numofq))
+        g = sorted(tuple(int(v) for v in r) for r in np.asarray(got))
+        ctx.count("default_qset_large_ranges")
+        ctx.check("default_qset", g == exp, "choosewavevector/set/large",
+                  lambda: f"ndim={d} numofq={numofq}: {len(g)} vectors, expected {len(exp)}; missing {sorted(set(exp) - set(g))[:4]} extra {sorted(set(g) - set(exp))[:4]}",
+                  {"ndim": d, "numofq": numofq})
 
 
 def qset_probe(ctx):
@@ -284,6 +354,8 @@ def run(ctx):
     wd = fresh_dir("c04")
     if ctx.shard == 0:
         qset_probe(ctx)
+    if ctx.shard == 0 or ctx.thorough:
+        qset_probe_large(ctx, ctx.rng())
     if ctx.shard == 0 or ctx.thorough:
         # systems far beyond the usual size: particles x wave vectors in the millions (block-wise evaluation boundaries)
         for K_, m_ in ((2, "default"), (3, "explicit")):
